@@ -62,6 +62,7 @@ def level(draw, depth, max_nodes):
 def strategy(tier):
     return st.fixed_dictionaries(dict(
         top=st.sampled_from(['pure', 'nestable', 'nestable']),
+        verbose=st.integers(0, 4).map(lambda v: v == 0),
         tree=level(0, 12),
         program=st.lists(st.tuples(st.booleans(), st.integers(0, 11), st.integers(0, 11)),
                          max_size=6)))
@@ -226,6 +227,9 @@ def evaluate(case):
     nontrivial = []
     with quiet():
         top = build_level(case['tree'], 't', case['top'], built)
+    if case.get('verbose'):
+        for sched, _ in built.levels:
+            sched.verbose = True
     by_sched = {id(s): objs for s, objs in built.levels}
 
     def verify(tag):
